@@ -65,7 +65,7 @@ func c19exec(c *Ctx, st *c19state, op Op, seed uint64) Ev {
 	name := gets(op, "op")
 	v := geti(op, "v")
 	ev := Ev{"op": name, "v": v, "size": st.size, "len": 0, "count": 0, "k": -1, "buf": []int{}, "hook": b2i(c19hooks),
-		"scripted": 0, "coinw": -1, "masks": []int{}, "bufknown": 0, "words": []string{}, "wasScripted": false, "script": []int{}}
+		"scripted": 0, "coinw": -1, "masks": []int{}, "bufknown": 0, "words": []string{}, "wasScripted": false, "script": []int{}, "lite": 0}
 	guard(ev, func() {
 		switch name {
 		case "new":
@@ -225,6 +225,51 @@ func runC19(c *Ctx) {
 				}
 				do(Op{"op": "add", "v": v, "script": words})
 				_ = rng
+			}
+		}
+	}
+	// buffer sizes around 2^16 and 2^17: the exact regime must hold up to the size given
+	// (public observations only: the buffer itself is not logged)
+	for i, size := range []int{65535, 65536, 65537, 70000, 131072, 256, 257} {
+		if !c.Thorough() && i >= 4 && i < 5 {
+			continue
+		}
+		h := c.NewHist("wide-size")
+		ctr := distinct.NewCounter[int](size)
+		lite := func(op string, v int) {
+			h.Emit(Ev{"op": op, "v": v, "size": size, "len": ctr.Len(), "count": int(min(ctr.Count(), 1<<30)), "k": -1, "buf": []int{}, "hook": 0,
+				"scripted": 0, "coinw": -1, "masks": []int{}, "bufknown": 0, "words": []string{}, "wasScripted": false, "script": []int{}, "lite": 1})
+		}
+		lite("new", 0)
+		n := 5200
+		if size < 1000 {
+			n = size - 1
+		}
+		for v := 1; v <= n; v++ {
+			ctr.Add(v)
+			if v%3 == 0 {
+				ctr.Add(v - 1) // repeats do not count
+			}
+			if v < 40 || v%97 == 0 || v > n-3 {
+				lite("add", v)
+			} else {
+				lite("addq", v) // observed too, validated the same way
+			}
+		}
+		ctr.Reset()
+		lite("reset", 0)
+		ctr.Add(7)
+		lite("add", 7)
+	}
+	// many eviction passes on one counter: k must keep growing (scripted: keep, evict everything)
+	if c19hooks {
+		for i := 0; i < 2; i++ {
+			h := c.NewHist("many-passes")
+			st := &c19state{}
+			do := func(op Op) { h.Emit(c19exec(c, st, op, uint64(i))) }
+			do(Op{"op": "new", "size": 2 + i})
+			for v := 1; v <= 30*(2+i); v++ {
+				do(Op{"op": "add", "v": v, "script": []int{0, 0}}) // coin keep; if a pass runs, nobody survives
 			}
 		}
 	}
